@@ -3,10 +3,12 @@
 (the text of the property only - nothing from /verif)."""
 import json, subprocess, sys
 prop, tag = sys.argv[1], sys.argv[2]
+subtle = len(sys.argv) > 3 and sys.argv[3] == "subtle"
 p = next(json.loads(l) for l in open("/verif/properties.jsonl") if json.loads(l)["id"] == prop)
 wt = f"/tmp/wt_{tag}"
 subprocess.run(["git", "-C", "/repo", "worktree", "add", "-q", "--detach", wt, "HEAD"], check=True)
 anch = p["anchors"]
+HINT = (" Do NOT take the first idea that comes to mind (a one-token slip in the most prominent function named in the anchors): reviewers have tried those already. Look for a subtler route - a helper or base class the anchored code depends on, an interaction between two features, state carried from one call to the next, an unusual but legal argument type / shape / option, the edge of the quantifier's domain, or a change that keeps every individual function plausible but breaks their composition." if subtle else "")
 text = (f"""You are helping to evaluate a verification effort by playing the adversary. Work ONLY inside the git worktree {wt} (a scratch checkout of the Python package `cardillo`, a simulation framework for flexible multibody systems). Do not read or touch /repo, /verif or any other directory outside {wt} (reading installed site-packages for library docs is fine).
 
 Here is a semantic property that cardillo is supposed to satisfy:
@@ -21,7 +23,7 @@ Your task: produce ONE realistic change (a plausible bug a maintainer could intr
   (b) the existing test-suite still passes completely: run it with
       cd {wt} && PYTHONPATH={wt} /venv/bin/python -m pytest -q -p no:cacheprovider -x -n 6 --timeout=900
       (takes about a minute; it must report 85 passed with your change applied).
-The change must NOT be one that ordinary use would expose at once (no crash on every call, no grossly wrong result on the default path). It should need something specific to manifest: an unusual input or parameter combination, a particular branch, a multi-step sequence of operations, a particular state/history, a rarely used option, or two cooperating sites. Prefer a change in the code the property is anchored in (or code it directly depends on). Keep it small (a few lines). Do not edit tests.
+The change must NOT be one that ordinary use would expose at once (no crash on every call, no grossly wrong result on the default path). It should need something specific to manifest: an unusual input or parameter combination, a particular branch, a multi-step sequence of operations, a particular state/history, a rarely used option, or two cooperating sites. Prefer a change in the code the property is anchored in (or code it directly depends on). Keep it small (a few lines). Do not edit tests.{HINT}
 
 Also write a demonstration program {wt}/demo_{tag}.py (plain Python, run as `PYTHONPATH={wt} /venv/bin/python demo_{tag}.py`) that exercises the real cardillo code, checks the property on the specific inputs needed, and exits with status 0 when the property holds and status 1 (printing what failed) when it is violated. It must exit 0 on the UNCHANGED code and 1 WITH your change. Verify both yourself (use `git stash` / `git stash pop` or `git diff > patch.diff; git checkout -- cardillo; ...; git apply patch.diff`).
 
